@@ -225,6 +225,12 @@ func (l *Lexer) readDigit(tok *token.Token) {
 func (l *Lexer) readFloat(hasReadExponentAlready bool, tok *token.Token) {
 
 	var r byte
+	if hasReadExponentAlready {
+		// ExponentPart :: ExponentIndicator Sign? Digit+ (e.g. 1e+3, 1E-3)
+		if sign := l.peekRune(false); sign == runes.SUB || sign == runes.ADD {
+			l.readRune()
+		}
+	}
 	for {
 		r = l.peekRune(false)
 		if !runeIsDigit(r) {
